@@ -464,6 +464,20 @@ func rulesC06(e *Engine, r *Report) {
 		}
 		r.Check(ok, "R06.9", "stage.(*Stage).putFileAway: target = <final>/(renamed | name) of the file", e.Pos(fn.Pos()), "the delivery name is not the file's rename target or name", 1)
 	}
+	// ---------------------------------------------------------------- R06.12
+	r.Rule("R06.12", "names recovered from the stage are the names that were staged: pathToName cuts the stage root off the front and exactly the extension off the end (strings.TrimSuffix); nowhere in the module is strings.Trim/TrimLeft/TrimRight given a multi-character extension as its CUTSET (which would also eat trailing letters of the name itself: x.nc → x.n), neither directly nor through a parameter that a caller fills with such a constant")
+	if fn := needFn(e, r, "R06.12", "stage.(*Stage).pathToName"); fn != nil {
+		ts := e.findInstrs(fn, "call(strings.TrimSuffix)(p1[(builtin(len)(p0.rootDir) + 1):], p2)", false)
+		r.Check(len(ts) == 1, "R06.12", "stage.(*Stage).pathToName: TrimSuffix(path[len(root)+1:], ext)", e.Pos(fn.Pos()), "the name is not obtained by cutting the root and exactly the extension off the path", 1)
+		n := 0
+		for _, rw := range e.returnWorlds(r, "R06.12", fn, labeler()) {
+			n++
+			v := e.Canon(rw.In.(*ssa.Return).Results[0])
+			r.Check(v == "phi(call(strings.TrimSuffix)(p1[(builtin(len)(p0.rootDir) + 1):], p2)|p1[(builtin(len)(p0.rootDir) + 1):])", "R06.12", "stage.(*Stage).pathToName: returns the cut name", e.InstrPos(rw.In), "pathToName returns "+shorten(v), 1, v)
+		}
+		r.Min("R06.12", "returns of pathToName", n, 1)
+	}
+	e.checkCutsets(r, "R06.12")
 }
 
 // checkRecoverReadiness: Recover keeps readiness cleared across every step and
@@ -507,4 +521,61 @@ func (e *Engine) checkRecoverReadiness(r *Report, rule string) {
 		}
 		r.Min(rule, "return path classes of Recover", nr, 2)
 	}
+}
+
+// checkCutsets: strings.Trim* take a SET of characters.  A constant of more
+// than one character that looks like an extension or word, given directly or
+// through a parameter, is the classic mix-up with TrimSuffix/TrimPrefix.
+func (e *Engine) checkCutsets(r *Report, rule string) {
+	n := 0
+	isWordy := func(s string) bool {
+		s = strings.Trim(s, `"`)
+		if len(s) < 2 {
+			return false
+		}
+		letters := 0
+		for _, c := range s {
+			if (c >= 'a' && c <= 'z') || (c >= 'A' && c <= 'Z') {
+				letters++
+			}
+		}
+		return letters >= 2
+	}
+	for _, fn := range e.Funcs {
+		for _, s := range e.SitesIn(fn) {
+			key := e.CalleeKey(s.Instr.Common())
+			if key != "strings.Trim" && key != "strings.TrimLeft" && key != "strings.TrimRight" {
+				continue
+			}
+			n++
+			arg := s.Instr.Common().Args[1]
+			var cands []string
+			if c, ok := arg.(*ssa.Const); ok {
+				cands = append(cands, constStr(c))
+			} else if p, ok := arg.(*ssa.Parameter); ok {
+				idx := -1
+				for i, q := range fn.Params {
+					if q == p {
+						idx = i
+					}
+				}
+				for _, cs := range e.AllSites() {
+					if cs.Instr.Common().StaticCallee() == fn && idx >= 0 && idx < len(cs.Instr.Common().Args) {
+						if c, ok := cs.Instr.Common().Args[idx].(*ssa.Const); ok {
+							cands = append(cands, constStr(c))
+						}
+					}
+				}
+			}
+			bad := ""
+			for _, c := range cands {
+				if isWordy(c) {
+					bad = c
+				}
+			}
+			r.Check(bad == "", rule, fmt.Sprintf("%s: %s with a character SET", e.ShortName(fn), key), e.InstrPos(s.Instr.(ssa.Instruction)),
+				key+" is given "+bad+" - a cutset, not a suffix: every trailing/leading character of that set is removed, including letters of the name itself", 1+len(cands), cands...)
+		}
+	}
+	r.Min(rule, "strings.Trim/TrimLeft/TrimRight call sites examined", n, 3)
 }
